@@ -16,7 +16,7 @@ import (
 )
 
 func init() {
-	stats.Rule("C08", "fault enumeration: encodings are sampled (rapid: sources as in C06 - all five store kinds hence all layouts as producer, three mapping kinds, plain and exact variants, mapping embedded or omitted) and, for each encoding, the fault set is enumerated completely: (1) EVERY cut point 0..len-1, (2) at every block boundary the flag byte replaced by undefined flags (a sample of 8 per boundary in the quick tier, all of them in the thorough tier), (3) mapping mismatch (other kind, or same kind with accuracy >= 0.1% apart) in the stream vs receiver/supplied mapping, (4) mapping omitted and not supplied; each fault is tried against every consumer in {dense, sparse, paginated, collapsing-lowest, collapsing-highest} x {DecodeDDSketch, DecodeDDSketchWithExactSummaryStatistics, DecodeAndMergeWith into a non-empty receiver} x {mapping supplied, nil}. Oracle: no panic; a cut strictly inside a block must return an error; a cut on a block boundary must succeed when a mapping is known (supplied or among the complete blocks) and hold exactly fold_target(content of the complete blocks as read by the independent parser) (the exact-summary decoder additionally refuses non-empty content without a count, as documented); faults 2-4 must return an error; whenever err == nil the decoded content must equal the content of the complete blocks. An evaluation = one encoding with its whole fault set; non-trivial: the encoding has a bin block so that cuts fall strictly inside bin blocks (inside N, an index delta, a varfloat count); distinct by hash of the encoding.")
+	stats.Rule("C08", "fault enumeration: encodings are sampled (rapid: sources as in C06 - all five store kinds hence all layouts as producer, three mapping kinds, plain and exact variants, mapping embedded or omitted) and, for each encoding, the fault set is enumerated completely: (1) EVERY cut point 0..len-1, (2) at every block boundary the flag byte replaced by undefined flags (a sample of 8 per boundary in the quick tier, all of them in the thorough tier), (3) mapping mismatch (other kind, same kind with accuracy >= 0.1% apart, or same kind and base with another index offset incl. one of the two being 0) in the stream vs receiver/supplied mapping, (4) mapping omitted and not supplied; each fault is tried against every consumer in {dense, sparse, paginated, collapsing-lowest, collapsing-highest} x {DecodeDDSketch, DecodeDDSketchWithExactSummaryStatistics, DecodeAndMergeWith into a non-empty receiver} x {mapping supplied, nil}. Oracle: no panic; a cut strictly inside a block must return an error; a cut on a block boundary must succeed when a mapping is known (supplied or among the complete blocks) and hold exactly fold_target(content of the complete blocks as read by the independent parser) (the exact-summary decoder additionally refuses non-empty content without a count, as documented); faults 2-4 must return an error; whenever err == nil the decoded content must equal the content of the complete blocks. An evaluation = one encoding with its whole fault set; non-trivial: the encoding has a bin block so that cuts fall strictly inside bin blocks (inside N, an index delta, a varfloat count); distinct by hash of the encoding.")
 }
 
 type consumer struct {
@@ -247,6 +247,18 @@ func c08Case(t *rapid.T) {
 				if om, err := (gen.MapSpec{Kind: gen.KindOf(sc.m), FromAlpha: true, Alpha: a2}).Build(); err == nil {
 					others = append(others, om)
 				}
+			}
+		}
+		// same kind and base, another index offset (values land in other bins: the mapping differs); one of the two offsets
+		// exactly 0 included
+		offs := []float64{o + 1, o - 1, o + 0.5, o - 7.25, o + 1e-3}
+		if o != 0 {
+			offs = append(offs, 0, -o)
+		}
+		for _, o2 := range offs {
+			if om, err := (gen.MapSpec{Kind: gen.KindOf(sc.m), Gamma: g, Offset: o2}).Build(); err == nil {
+				others = append(others, om)
+				cl.label("fault:mapping-mismatch-offset-only")
 			}
 		}
 		for _, om := range others {
